@@ -311,7 +311,14 @@ class Engine:
         # first arithmetic use; the obligation is raised at the store (conservative, earlier)
         if isinstance(val, OptV) and ty.kind not in ("opt",) :
             return self.unopt(val, "value stored in non-optional field")
+        if ty.kind == "dict" and isinstance(val, dict) and not val:
+            return self.new_dict(ty.args[0], ty.args[1])      # `x.attr = {}`: a new empty dict object
         return val
+
+    def new_dict(self, kt, vt):
+        dv = DictV(self.new_ref(), kt, vt)
+        self.set_ddom(dv, z3.K(self.ksort(kt), z3.BoolVal(False)))
+        return dv
 
     # lists ---------------------------------------------------------------
     def llen(self, lv):
